@@ -146,6 +146,106 @@ pub fn run(ctx: &mut Ctx) {
         for g in &finds { let _ = unsafe { SFileFindClose(h(*g)) }; }
         for a in &archs { let _ = SFileCloseArchive(h(a.0)); }
     }
+    // forged handles that agree with a live one in the low 32 bits only: every entry point must refuse them, and closing
+    // one must not close the live object
+    {
+        let cp = CString::new(w.paths[0].to_str().unwrap_or("")).unwrap();
+        let mut a: HANDLE = std::ptr::null_mut();
+        if unsafe { SFileOpenArchive(cp.as_ptr(), 0, 0, &mut a) } {
+            let cn = CString::new("a.txt").unwrap();
+            let mut f: HANDLE = std::ptr::null_mut();
+            let okf = unsafe { SFileOpenFileEx(a, cn.as_ptr(), 0, &mut f) };
+            for k in [1usize, 2, 0x8000_0000, 0xFFFF_FFFF] {
+                let fa = ((a as usize) ^ (k << 32)) as HANDLE;
+                let has = unsafe { SFileHasFile(fa, cn.as_ptr()) };
+                let mut out: HANDLE = std::ptr::null_mut();
+                let opened = unsafe { SFileOpenFileEx(fa, cn.as_ptr(), 0, &mut out) };
+                if opened { let _ = SFileCloseFile(out); }
+                let closed = SFileCloseArchive(fa);
+                ctx.out.oracle(!has && !opened && !closed, "ffi-accepts-forged-handle", &format!("archive handle {:#x} forged as {:#x}: has={has} open={opened} close={closed}", a as usize, fa as usize));
+                if okf {
+                    let ff = ((f as usize) ^ (k << 32)) as HANDLE;
+                    let mut hi32 = 0u32; let sz = unsafe { SFileGetFileSize(ff, &mut hi32) };
+                    let size_ok = !(sz == 0xFFFF_FFFF && SFileGetLastError() != 0);
+                    let closedf = SFileCloseFile(ff);
+                    ctx.out.oracle(!size_ok && !closedf, "ffi-accepts-forged-handle", &format!("file handle {:#x} forged as {:#x}: size={size_ok} close={closedf}", f as usize, ff as usize));
+                }
+                ctx.out.stat("c19.forged_high_bits");
+            }
+            // the live objects are still there
+            let still = unsafe { SFileHasFile(a, cn.as_ptr()) };
+            ctx.out.oracle(still, "ffi-forged-close-closed-live-handle", "archive no longer answers after closing forged handles");
+            if okf { let _ = SFileCloseFile(f); }
+            let _ = SFileCloseArchive(a);
+            next_id = (a as usize).max(f as usize) + 1;
+        }
+    }
+    // writable archives (SFileCreateArchive2): after every add / replace / remove / rename / flush / compact, what the C API
+    // shows for every name (exists, size, bytes) is what a plain name -> bytes map says, before any flush as well as after;
+    // after closing, the Rust reader sees the same map
+    {
+        use std::collections::BTreeMap;
+        let dir = tempfile::tempdir().expect("tmp");
+        let pool = ["keep.txt", "Dir\\new.bin", "moved.bin", "other.dat", "never.bin"];
+        let n_hist = if ctx.thorough { 120 } else { 24 };
+        for hi in 0..n_hist {
+            let path = dir.path().join(format!("w{hi}.mpq"));
+            let cp = CString::new(path.to_str().unwrap_or("")).unwrap();
+            let info = SFILE_CREATE_MPQ { cb_size: std::mem::size_of::<SFILE_CREATE_MPQ>() as u32, mpq_version: (hi % 4) as u32, user_data: std::ptr::null_mut(), cb_user_data: 0, stream_flags: 0,
+                file_flags_1: if hi % 3 == 0 { 0 } else { 1 }, file_flags_2: 0, file_flags_3: 0, attr_flags: 0, sector_size: 3, raw_chunk_size: 0, max_file_count: 16 };
+            let mut a: HANDLE = std::ptr::null_mut();
+            if !unsafe { SFileCreateArchive2(cp.as_ptr(), &info, &mut a) } { ctx.out.stat("c19.writable.create_failed"); continue; }
+            let mut map: BTreeMap<String, Vec<u8>> = BTreeMap::new();
+            let mut trace = format!("create v{} listfile={}; ", hi % 4 + 1, hi % 3 != 0);
+            let steps = ctx.rng.range(3, 14);
+            for st in 0..steps {
+                let n = pool[ctx.rng.below(4) as usize].to_string();
+                match ctx.rng.below(10) {
+                    0..=3 => {
+                        let len = *ctx.rng.pick(&[0usize, 1, 17, 300, 5000]);
+                        let data: Vec<u8> = (0..len).map(|j| ((j * 13 + st as usize + hi as usize) % 251) as u8).collect();
+                        let src = dir.path().join("src.bin"); std::fs::write(&src, &data).ok();
+                        let replace = ctx.rng.chance(2, 3);
+                        let cs = CString::new(src.to_str().unwrap_or("")).unwrap(); let cn = CString::new(n.as_str()).unwrap();
+                        let ok = unsafe { SFileAddFileEx(a, cs.as_ptr(), cn.as_ptr(), if replace { 0x8000_0000 } else { 0 }, *ctx.rng.pick(&[0u32, 0x02, 0x10]), 0) };
+                        trace.push_str(&format!("add {n} {len}b replace={replace} -> {ok}; "));
+                        if ok { if map.contains_key(&n) && !replace { ctx.out.oracle(false, "ffi-add-without-replace-overwrites", &trace); } map.insert(n.clone(), data); }
+                        else if !map.contains_key(&n) || replace { ctx.out.known("ffi-add-refused", &trace); }
+                    }
+                    4 | 5 => { let cn = CString::new(n.as_str()).unwrap(); let ok = unsafe { SFileRemoveFile(a, cn.as_ptr(), 0) }; trace.push_str(&format!("remove {n} -> {ok}; "));
+                        if ok { if map.remove(&n).is_none() { ctx.out.oracle(false, "ffi-remove-of-absent-name-succeeds", &trace); } } else if map.contains_key(&n) { ctx.out.oracle(false, "ffi-remove-of-present-name-fails", &trace); } }
+                    6 | 7 => { let m = pool[ctx.rng.below(4) as usize].to_string(); let (c1, c2) = (CString::new(n.as_str()).unwrap(), CString::new(m.as_str()).unwrap());
+                        let ok = unsafe { SFileRenameFile(a, c1.as_ptr(), c2.as_ptr()) }; trace.push_str(&format!("rename {n} {m} -> {ok}; "));
+                        if ok { if map.contains_key(&m) && m != n { ctx.out.oracle(false, "ffi-rename-onto-existing-name-succeeds", &trace); } if let Some(d) = map.remove(&n) { map.insert(m, d); } else { ctx.out.oracle(false, "ffi-rename-of-absent-name-succeeds", &trace); } } }
+                    8 => { let ok = unsafe { SFileFlushArchive(a) }; trace.push_str(&format!("flush -> {ok}; ")); }
+                    _ => { let ok = unsafe { SFileCompactArchive(a, std::ptr::null(), false) }; trace.push_str(&format!("compact -> {ok}; ")); }
+                }
+                // the C API's view of every pool name, through the same handle, right now
+                for name in pool {
+                    let cn = CString::new(name).unwrap();
+                    let has = unsafe { SFileHasFile(a, cn.as_ptr()) };
+                    let mut f: HANDLE = std::ptr::null_mut();
+                    let opened = unsafe { SFileOpenFileEx(a, cn.as_ptr(), 0, &mut f) };
+                    let want = map.get(name);
+                    let mut good = has == want.is_some() && opened == want.is_some();
+                    if opened {
+                        let mut hi32 = 0u32; let sz = unsafe { SFileGetFileSize(f, &mut hi32) } as usize;
+                        let mut buf = vec![CANARY; sz + 64]; let mut got = 0u32;
+                        let okr = unsafe { SFileReadFile(f, buf[16..].as_mut_ptr() as *mut c_void, sz as u32 + 32, &mut got, std::ptr::null_mut()) };
+                        if let Some(d) = want { good &= sz == d.len() && (okr || d.is_empty()) && got as usize == d.len() && buf[16..16 + got as usize] == d[..]; }
+                        good &= buf[..16].iter().all(|b| *b == CANARY) && buf[16 + got as usize..].iter().all(|b| *b == CANARY);
+                        let _ = SFileCloseFile(f);
+                    }
+                    ctx.out.oracle(good, "ffi-writable-view-differs-from-map", &format!("{name}: has={has} opened={opened} want={:?} :: {trace}", want.map(|d| d.len())));
+                }
+                if trace.len() > 1200 { trace = format!("…{}", &trace[trace.len() - 900..]); }
+            }
+            let _ = SFileCloseArchive(a);
+            match Archive::open(&path) { Ok(mut r) => { for name in pool { let got = r.read_file(name).ok(); ctx.out.oracle(got.as_ref() == map.get(name), "ffi-written-archive-differs-from-map", &format!("{name}: rust reads {:?}, map {:?} :: {trace}", got.as_ref().map(|d| d.len()), map.get(name).map(|d| d.len()))); } }
+                Err(e) => ctx.out.oracle(false, "ffi-written-archive-does-not-open", &format!("{e} :: {trace}")) }
+            ctx.out.stat("c19.writable.history"); ctx.out.nontrivial(trace.as_bytes());
+        }
+    }
     // long names through SFileGetFileName / find data: the caller's MAX_PATH buffers must not be overrun
     {
         let dir = tempfile::tempdir().expect("tmp");
